@@ -245,6 +245,11 @@ theorem C14_source_facts :
       "tuple((cc if cc <= tc or cc == n or cc % tc == 0 else cc // tc * tc for n, cc, tc in zip(shape, copy_chunks, target_chunks)))" ∧
     GeneratedC14.regFixCall =
       "read_chunks = _fix_copy_chunks(shape, read_chunks, (stage_chunks + [write_chunks])[0])" ∧
+    GeneratedC14.regFixTarget = "(stage_chunks + [write_chunks])[0]" ∧
+    GeneratedC14.regFixArgs = "shape , read_chunks" ∧
+    GeneratedC14.regFixInLoopBetweenStageAndPre = true ∧
+    GeneratedC14.regPreChunks = "[read_chunks] + stage_chunks" ∧
+    GeneratedC14.regPostChunks = "stage_chunks + [write_chunks]" ∧
     GeneratedC14.consolidateMaxedTest = "upper_bound_headroom > 1" ∧
     GeneratedC14.consolidateRejectTest = "chunk_mem > max_mem" ∧
     GeneratedC14.consolidateLargerChunk = "int(chunks[n_axis] * int(headroom))" ∧
